@@ -120,6 +120,11 @@ def run_check(prop, tier, seed, skip_lean=False):
         assumptions=plan.get('assumptions', []),
         wall_s=round(time.time() - t0, 2), violations=len(new_violations),
     )
+    import implcov
+    ic = implcov.report()
+    if ic is not None:
+        # how much of the implementation the generated inputs executed (statement/branch coverage of src/cminx, generated parser excluded)
+        ev['coverage']['impl_coverage'] = ic
     if not thms:
         ev['coverage']['explanation'] = "no property theorem registered yet for this property; only the correspondence ran"
         for k in ('obligations', 'discharged'): ev['coverage'].pop(k, None)
